@@ -59,7 +59,7 @@ Apply(i) ==
     [] i.op = "api"     -> ~Busy(CCur, i.g) /\ CCommit(ApiFx(CCur, i.g, i.kind, i.name, i.prog, i.tmo))
     [] i.op = "reply"   -> CCommit(ReplyFx(CCur, i.id, i.mk, i.a))
     [] i.op = "sched"   -> CCommit(ScheduleFx(CCur, i.id, i.mk, i.a, i.ms))
-    [] i.op = "advance" -> \E tie \in {"reply", "timer"} : CCommit(CAdvanceFx(CCur, i.ms, tie))
+    [] i.op = "advance" -> \E tie \in {"reply", "timer"}, ord \in {"lo", "hi"} : CCommit(CAdvanceFx(CCur, i.ms, tie, ord))
     [] i.op = "cancel"  -> CCommit(CancelCtxFx(CCur, i.g, IF i.mode = "" THEN "killnowait" ELSE i.mode))
     [] i.op = "inv"     -> CCommit(InvocationFx(CCur, i.reg, i.inv, i.tmo))
     [] i.op = "intr"    -> CCommit(InterruptFx(CCur, i.inv))
